@@ -56,14 +56,31 @@ def editLogs : List Edit → Option (List Name)
       | some n, some l => some (trashLog n :: l)
       | _, _ => none
 
+/-- the digests an edit removes and does not add again itself -/
+def removedBy (e : Edit) : List Name := e.rm.filter (fun x => !e.add.contains x)
+
+/-- `ssts_to_remove` as repaired (D-28): a file that a later edit removes again — later in this
+    fragment, or in `later`: the removals of the fragments after this one and of `MANIFEST` — is
+    that edit's trash (`last_removals`); files are named after their contents, a compaction can
+    write a removed file again, and there is one copy of it in `trash/` -/
+def fragSstsLast (later : List Name) : List Edit → List Name
+  | [] => []
+  | e :: t =>
+    ((removedBy e).filter (fun r => !(t.flatMap removedBy).contains r && !later.contains r)).map trashSst
+      ++ fragSstsLast later t
+
 /-- the basenames `process_one` looks for in `trash/`, in the order it looks for them: the SSTs of
-    all edits, then the logs of all edits but the first -/
-def plan (es : List Edit) : Option (List Name) := (editLogs (es.drop 1)).map (fragSsts es ++ ·)
+    all edits, then the logs of all edits but the first.  `asWas`: the list as the code had it
+    before the repair of D-28 (every removal, whatever comes later). -/
+def plan (asWas : Bool) (later : List Name) (es : List Edit) : Option (List Name) :=
+  (editLogs (es.drop 1)).map ((if asWas then fragSsts es else fragSstsLast later es) ++ ·)
 
 /-- what `verify_one` decides beyond the two lists: the setsum checks.  `check acc edits` is the new
-    accumulator, or `none` for a corruption error. -/
+    accumulator, or `none` for a corruption error.  `asWas` selects the plan of the code before the
+    repair of D-28. -/
 structure Checker (A : Type) where
   check : A → List Edit → Option A
+  asWas : Bool := false
 
 structure Dir (A : Type) where
   /-- digests with a file in `sst/` -/
@@ -120,6 +137,20 @@ def completeActs (d : Dir A) (n : Nat) : Option (List (Act A)) :=
     else some ((if m = n ∧ d.frags.any (fun f => f.1 == n) then [Act.unlinkFrag n] else [])
       ++ (d.vstrs.filter (fun x => d.trash.contains x)).map Act.unlinkTrash ++ [Act.clear])
 
+/-- the digests removed by the fragments numbered above `n` and by `MANIFEST`: what `last_removals`
+    knows of the edits after fragment `n` -/
+def laterRm (d : Dir A) (n : Nat) : List Name :=
+  (d.frags.filter (fun f => decide (n < f.1))).flatMap (fun f => f.2.flatMap removedBy) ++ d.live.flatMap removedBy
+
+/-- `verify_contents` / `verify_gc` open every file an edit other than the first adds or removes,
+    in `trash/` or else in `sst/` (`get_cursor`); a file in neither is an error, not a backoff -/
+def readable (d : Dir A) (es : List Edit) : Bool :=
+  (es.drop 1).all (fun e => (e.add ++ e.rm).all (fun r => d.trash.contains (trashSst r) || d.sst.contains r))
+
+/-- `verify_one`'s verdict: the files it reads are there and the setsum checks pass -/
+def checkAll (C : Checker A) (d : Dir A) (es : List Edit) : Option A :=
+  if readable d es then C.check d.vO es else none
+
 /-- `process_one(entry n)` with the edits `es` the entry holds: the durable actions and how it returns -/
 def processOne (C : Checker A) (d : Dir A) (n : Nat) (es : List Edit) : List (Act A) × Status :=
   match completeActs d n with
@@ -129,7 +160,7 @@ def processOne (C : Checker A) (d : Dir A) (n : Nat) (es : List Edit) : List (Ac
     if d.vM = some n then (a1, .ok)
     else if d1.vstrs ≠ [] then (a1, .panic)          -- assert!(self.mani.strs().count() == 0)
     else
-      match C.check d1.vO es, plan es with
+      match checkAll C d1 es, plan C.asWas (laterRm d1 n) es with
       | some o, some names =>
         match names.find? (fun x => !d1.trash.contains x) with
         | some x => (a1, .backoff x)
@@ -184,6 +215,8 @@ def chainCheck (acc : Name) : List Edit → Option Name
     | some _, some o, some _ => if o = acc then chainGo acc t else none
     | _, _, _ => none
 
-def chainChecker : Checker Name := ⟨chainCheck⟩
+def chainChecker : Checker Name := ⟨chainCheck, false⟩
+/-- the same checks with the plan of the code before the repair of D-28 -/
+def chainCheckerAsWas : Checker Name := ⟨chainCheck, true⟩
 
 end Blue.Verifier
